@@ -21,11 +21,14 @@ variable {α : Type} {cfg : Cfg} {Ok : VB → Prop}
 theorem C01_operation_refines (L : VecLaws α cfg Ok) (o : OpSpec α) (ho : IsVecOp cfg o) : OpOK cfg Ok o := ho.ok L
 
 /-- whole histories: run any sequence of these operations on one container, continuing after every exception; the container
-    ends holding a list that the `std::vector` semantics of the history allows (`Trace`) -/
+    ends holding a list that the `std::vector` semantics of the history allows (`Trace`); no heap block allocated along the way
+    (identifier `≥ n0`) is left behind except the one the container owns (`Owned`, given at the start: `Owned.start`) -/
 theorem C01_history (L : VecLaws α cfg Ok) (c : Nat) (ops : List (OpSpec α)) (hops : ∀ o ∈ ops, IsVecOp cfg o) (m : Mem α) (xs : List α)
-    (hv : VRep cfg Ok c m xs) (hi : HInv m) (hs : Safe cfg ops xs) (hcat : ∀ o ∈ ops, o.nonTC = true → m.cat ≠ .tc) :
-    Post (runHist cfg c ops) m (fun res m' => res = .ok () ∧ ∃ ys, Trace cfg ops xs ys ∧ VRep cfg Ok c m' ys ∧ HInv m' ∧ m'.cat = m.cat) :=
-  vector_history L c ops hops m xs hv hi hs hcat
+    (hv : VRep cfg Ok c m xs) (hi : HInv m) (hs : Safe cfg ops xs) (hcat : ∀ o ∈ ops, o.nonTC = true → m.cat ≠ .tc)
+    (n0 : Nat) (ho : Owned cfg c n0 m) :
+    Post (runHist cfg c ops) m (fun res m' => res = .ok () ∧ ∃ ys, Trace cfg ops xs ys ∧ VRep cfg Ok c m' ys ∧ HInv m' ∧ m'.cat = m.cat
+      ∧ Owned cfg c n0 m') :=
+  vector_history L c ops hops m xs hv hi hs hcat n0 ho
 
 /-- when no operation of the history throws, the final list is the fold of the `std::vector` results -/
 theorem C01_trace_no_throw (ops : List (OpSpec α)) (xs : List α) : Trace cfg ops xs (ops.foldl (fun l o => o.spec l) xs) := by
@@ -42,13 +45,13 @@ theorem C01_insert_range (L : VecLaws α cfg Ok) (m : Mem α) (c : Nat) (xs : Li
     (h : VRepW cfg Ok c m xs w) (hf : Fresh m) (hp : p ≤ xs.length) :
     Post (insertRange cfg c p vals) m (fun res m' =>
       (∀ r, res = .ok r → r = p ∧ VRep cfg Ok c m' (xs.take p ++ vals ++ xs.drop p)) ∧ (∀ f, res ≠ .error (.fault f))
-        ∧ FrameG c (regionOf cfg c w) m m') := insertRange_ok L m c xs w p hp vals h hf
+        ∧ FrameL cfg c (regionOf cfg c w) m m') := insertRange_ok L m c xs w p hp vals h hf
 
 theorem C01_insert_count (L : VecLaws α cfg Ok) (m : Mem α) (c : Nat) (xs : List α) (w : VB) (p count : Nat) (ref : Ref α) (v : α)
     (h : VRepW cfg Ok c m xs w) (hf : Fresh m) (hp : p ≤ xs.length) (hv : RefOK cfg c m w xs ref v) (hlit : ∃ x, ref = .lit x) :
     Post (insertCount cfg c p count ref) m (fun res m' =>
       (∀ r, res = .ok r → r = p ∧ VRep cfg Ok c m' (xs.take p ++ List.replicate count v ++ xs.drop p))
-        ∧ (∀ f, res ≠ .error (.fault f)) ∧ FrameG c (regionOf cfg c w) m m') := insertCount_ok L m c xs w p count hp ref v hv hlit h hf
+        ∧ (∀ f, res ≠ .error (.fault f)) ∧ FrameL cfg c (regionOf cfg c w) m m') := insertCount_ok L m c xs w p count hp ref v hv hlit h hf
 
 /-- copy assignment and copy construction from another container of the pool -/
 theorem C01_copy_assign (L : VecLaws α cfg Ok) (m : Mem α) (c d : Nat) (xs ys : List α) (w wd : VB)
@@ -84,7 +87,8 @@ theorem C01_laws_fixed_U64 (cfg : Cfg) (hfl : cfg.flavour = .fixed) (hops : cfg.
 /-- the hypotheses are satisfiable: a closed history on a concrete `FixedCapacityVector<_,2>` -/
 example : Post (runHist Example.exCfg 0 [opPushBack 7, opPushBack 8, opInsert 0 9, opClear]) Example.exMem
     (fun res m' => res = .ok () ∧ ∃ ys, Trace Example.exCfg [opPushBack 7, opPushBack 8, opInsert 0 9, opClear] [] ys ∧
-      VRep Example.exCfg (Bridge.U8.FOk 2) 0 m' ys ∧ HInv m' ∧ m'.cat = Example.exMem.cat) :=
+      VRep Example.exCfg (Bridge.U8.FOk 2) 0 m' ys ∧ HInv m' ∧ m'.cat = Example.exMem.cat
+      ∧ Owned Example.exCfg 0 Example.exMem.nextId m') :=
   C01_history (C01_laws_fixed_U8 Example.exCfg rfl rfl rfl) 0 _
     (by intro o ho; simp only [List.mem_cons, List.mem_nil_iff, or_false] at ho
         rcases ho with rfl | rfl | rfl | rfl
@@ -95,5 +99,6 @@ example : Post (runHist Example.exCfg 0 [opPushBack 7, opPushBack 8, opInsert 0 
     Example.exMem [] ⟨_, Example.exMem_rep⟩ Example.exMem_inv (by simp [Safe, opPushBack, opInsert, opClear])
     (by intro o ho; simp only [List.mem_cons, List.mem_nil_iff, or_false] at ho
         rcases ho with rfl | rfl | rfl | rfl <;> (intro h; cases h))
+    _ (Owned.start Example.exCfg 0 Example.exMem_inv.fresh)
 
 end AmcVerif.Props.C01
